@@ -341,6 +341,20 @@ func GetQueryFragment(expr string, pos posrange.PositionRange) string {
 	return expr[pos.Start:pos.End]
 }
 
+// stringLiteralValue returns the value of a string argument, which the parser allows to be wrapped in parentheses.
+func stringLiteralValue(e promParser.Expr) (string, bool) {
+	for {
+		switch v := e.(type) {
+		case *promParser.ParenExpr:
+			e = v.Expr
+		case *promParser.StringLiteral:
+			return v.Val, true
+		default:
+			return "", false
+		}
+	}
+}
+
 func walkAggregation(expr string, n *promParser.AggregateExpr) (src []Source) {
 	var s Source
 	switch n.Op {
@@ -405,8 +419,10 @@ func walkAggregation(expr string, n *promParser.AggregateExpr) (src []Source) {
 			s.Aggregation = n
 			s.Operation = "count_values"
 			// Param is the label to store the count value in.
-			s = includeLabel(s, n.Param.(*promParser.StringLiteral).Val)
-			s = guaranteeLabel(s, n.Param.(*promParser.StringLiteral).Val)
+			if label, ok := stringLiteralValue(n.Param); ok {
+				s = includeLabel(s, label)
+				s = guaranteeLabel(s, label)
+			}
 			s = excludeLabel(s, "Aggregation removes metric name.", n.PosRange, labels.MetricName)
 			src = append(src, s)
 		}
@@ -574,7 +590,9 @@ If you're hoping to get instance specific labels this way and alert when some ta
 	case "label_replace", "label_join":
 		// One label added to the results.
 		s.Returns = promParser.ValueTypeVector
-		s = guaranteeLabel(s, n.Args[1].(*promParser.StringLiteral).Val)
+		if label, ok := stringLiteralValue(n.Args[1]); ok {
+			s = guaranteeLabel(s, label)
+		}
 
 	case "pi":
 		s.Returns = promParser.ValueTypeScalar
